@@ -41,6 +41,8 @@ fn main() {
         "agg" => tvh::agg::run(&mut rng, thorough, &corpus),
         "config" => tvh::config::run(&mut rng, thorough, &corpus),
         "strategy" => tvh::strategy::run(&mut rng, thorough, &corpus),
+        "wire" => tvh::wire::run(&mut rng, thorough, &corpus),
+        "tui" => tvh::tui::run(&mut rng, thorough, &corpus),
         _ => { eprintln!("unknown component {comp}"); std::process::exit(2); }
     };
     run.write(&out, &comp).expect("write outputs");
